@@ -6,10 +6,19 @@ import XpmVerif.Proofs.CacheCoherent
     the implementation with the `_raw_identifier`/`_full_identifier` caches, the loop flag and sealing.
     A *query-only history* is a list of `sealOp n | reqRaw n | reqFull n` (`Op.isQuery`); `runOps` folds
     `step` over it and returns the outputs; `specOut hc g` is the specification's answer on graph `g`.
-    All theorems hold for every graph (no size bound, sharing, cycles, dangling references — no
-    well-formedness is needed), every initial assignment of `sealed` flags, every history, every hash
-    structure; `flagStored = true` is the obligation `C01.loop_flag_is_stored` on the source
-    (without it the statement is false: `C01.request_order_matters_without_flag`). -/
+    All theorems hold for every graph (no size bound, sharing, cycles, dangling references), every initial
+    assignment of `sealed` flags, every history, every hash structure; `flagStored = true` is the obligation
+    `C01.loop_flag_is_stored` on the source (without it the statement is false:
+    `C01.request_order_matters_without_flag`).
+
+    Configuration-valued defaults (`x: Param[B] = B(k=1)`): a parameter is skipped iff its value has the
+    identifier of the default object (`_is_default`), which makes the set of configurations examined while a
+    node is hashed depend on the context (Model/IdentImpl.lean `nodeRefs`; static bounds `valueRefs ⊆ nodeRefs ⊆
+    allRefs` in Proofs/HashRefs.lean).  The only well-formedness hypothesis of the general theorem is
+    `DefaultsClosed g` (Proofs/CacheCoherent.lean): a configuration occurring in a declared default of `n` does
+    not reach `n` back — true of defaults created in a class body and never mutated, vacuous without
+    configuration-valued defaults (`DefaultsClosed.of_noDefaultRefsB`), checkable with a rank function
+    (`DefaultsClosed.of_rank`, `DefaultsRanked.of_B`). -/
 namespace XpmVerif.C01Cache
 open XpmVerif.Ident List
 
@@ -23,7 +32,9 @@ theorem identifier_ignores_sealing {D : Type} (hc : HC D) (g g' : Graph) (k n : 
    fun h => ⟨h.rawId hc n, h.fullId hc n⟩⟩
 
 /-- **stage 1, acyclic graphs.** If the hash-relevant reference structure is acyclic (`Ranked g rank`:
-    `rank m < rank n` for every `m ∈ nodeRefs g.mt n (g.node n)`, and `rank n ≤ g.size`), then along every
+    `rank m < rank n` for every `m ∈ allRefs g.mt n (g.node n)` — producing task, kept configurations of the
+    values and configurations of the declared defaults of the arguments that reach the default rule —, and
+    `rank n ≤ g.size`), then along every
     query-only history started with empty caches every `reqRaw n` returns `rawId hc g n` and every
     `reqFull n` returns `fullId hc g n`.
     `LeOrder hc`: the digest order used by `sorted(pre_tasks_ids)` is a total order (needed because the
@@ -40,53 +51,56 @@ theorem cache_coherent_acyclic {D : Type} (hc : HC D) (ho : LeOrder hc) (g : Gra
 theorem acyclic_context_independent {D : Type} (hc : HC D) (g : Graph) (rank : Nat → Nat) (hr : Ranked g rank) :
     (∀ f f' stack stack' n, rank n < f → rank n < f' → Above rank stack n → Above rank stack' n →
       rawAt hc g f stack n = rawAt hc g f' stack' n) ∧
-    (∀ (c : Caches D) f stack n, Above rank stack n → escAt g c f stack n = 0) ∧
+    (∀ (c : Caches D) f stack n, Above rank stack n → escAt hc g c f stack n = 0) ∧
     (∀ (c : Caches D), (∀ n d b, c.raw n = some (d, b) → d = rawId hc g n) →
       ∀ f stack n, rank n < f → Above rank stack n → computeAt hc g c f stack n = rawId hc g n) :=
-  ⟨rawAt_acyclic hc g rank hr, fun c => escAt_acyclic g rank hr c, fun c hinv => computeAt_acyclic hc g rank hr c hinv⟩
+  ⟨rawAt_acyclic hc g rank hr, fun c => escAt_acyclic hc g rank hr c, fun c hinv => computeAt_acyclic hc g rank hr c hinv⟩
 
-/-- **the general statement (cycles included).** For every graph `g`, every query-only history
+/-- **the general statement (cycles included).** For every graph `g` whose default objects are well formed
+    (`DefaultsClosed g`, see the header; no hypothesis at all without configuration-valued defaults), every query-only history
     (`sealOp`/`reqRaw`/`reqFull` on arbitrary nodes in arbitrary order) started with empty caches and the
     loop flag stored: the list of outputs is the list of specification answers on the initial graph —
     every `reqRaw n` returns `rawId hc g n`, every `reqFull n` returns `fullId hc g n`
     (by `identifier_ignores_sealing` these are also the specification values of the graph at that moment). -/
-theorem cache_coherent {D : Type} (hc : HC D) (ho : LeOrder hc) (g : Graph)
+theorem cache_coherent {D : Type} (hc : HC D) (ho : LeOrder hc) (g : Graph) (hdc : DefaultsClosed g)
     (ops : List Op) (hq : ∀ o, o ∈ ops → o.isQuery = true) :
     (runOps hc true { g := g, c := Caches.empty } ops).2 = ops.map (specOut hc g) :=
-  runOps_general hc ho g ops hq
+  runOps_general hc ho g hdc ops hq
 
 /-- **state form.** After any query-only history the graph differs from the initial one by `sealed` flags
     only, and *whatever is requested next* — raw or full identifier of any node — is answered with the
     specification value of the current graph (equivalently of the initial one). -/
-theorem cache_coherent_state {D : Type} (hc : HC D) (ho : LeOrder hc) (g : Graph)
+theorem cache_coherent_state {D : Type} (hc : HC D) (ho : LeOrder hc) (g : Graph) (hdc : DefaultsClosed g)
     (ops : List Op) (hq : ∀ o, o ∈ ops → o.isQuery = true) (n : Nat) :
     let s := (runOps hc true { g := g, c := Caches.empty } ops).1
     SameContent g s.g ∧ (reqRaw hc true s n).2 = rawId hc s.g n ∧ (reqFull hc true s n).2 = fullId hc s.g n := by
   intro s
   have hs : Good hc g (CycleInv hc g) s :=
-    runOps_good hc ho g _ (rawSound_general hc g) ops _ hq (good_empty hc g _ (fun _ _ _ h => by cases h))
+    runOps_good hc ho g _ (rawSound_general hc g hdc) ops _ hq (good_empty hc g _ (fun _ _ _ h => by cases h))
   refine ⟨hs.1, ?_, ?_⟩
-  · rw [hs.1.rawId]; exact (rawSound_general hc g s n hs.1 hs.2.1).1
-  · rw [hs.1.fullId]; exact (reqFull_sound hc ho g _ (rawSound_general hc g) s n hs).1
+  · rw [hs.1.rawId]; exact (rawSound_general hc g hdc s n hs.1 hs.2.1).1
+  · rw [hs.1.fullId]; exact (reqFull_sound hc ho g _ (rawSound_general hc g hdc) s n hs).1
 
 /-- **raw identifiers need no assumption on the digest order.** Histories of `seal` and raw-identifier
     requests are coherent for every hash structure whatsoever. -/
-theorem cache_coherent_raw {D : Type} (hc : HC D) (g : Graph)
+theorem cache_coherent_raw {D : Type} (hc : HC D) (g : Graph) (hdc : DefaultsClosed g)
     (ops : List Op) (hq : ∀ o, o ∈ ops → o.isRawQuery = true) :
     (runOps hc true { g := g, c := Caches.empty } ops).2 = ops.map (specOut hc g) :=
-  runOps_raw_sound hc g _ (rawSound_general hc g) ops _ hq (SameContent.refl g) (fun _ _ _ h => by cases h)
+  runOps_raw_sound hc g _ (rawSound_general hc g hdc) ops _ hq (SameContent.refl g) (fun _ _ _ h => by cases h)
 
 /-- **why it works** (the two facts behind the cache invariant, for every graph and every cache satisfying
     `CycleInv`: cached values are specification values, and an entry whose loop flag is false belongs to a
-    node on no cycle of hash-relevant references):
+    node on no cycle of hash-relevant references — `Edge g n m := m ∈ relRefs g.mt n (g.node n)`: value edges and
+    default edges; by `DefaultsClosed` a cycle only consists of value edges, which are followed in every context):
     (a) a node on a cycle gets its loop flag set when its identifier is computed from the empty stack;
     (b) `computeAt` under every stack that is a chain of references equals the specification `rawAt`;
     (c) a node on no cycle has the value `rawId` in every such context. -/
-theorem cache_invariant_facts {D : Type} (hc : HC D) (g : Graph) (c : Caches D) (hinv : CycleInv hc g c.raw) :
-    (∀ n, OnCycle g n → 1 ≤ escAt g c (g.size + 1) [] n) ∧
+theorem cache_invariant_facts {D : Type} (hc : HC D) (g : Graph) (hdc : DefaultsClosed g) (c : Caches D)
+    (hinv : CycleInv hc g c.raw) :
+    (∀ n, OnCycle g n → 1 ≤ escAt hc g c (g.size + 1) [] n) ∧
     (∀ f stack n, StackOK g stack n → FuelOK g f stack n → computeAt hc g c f stack n = rawAt hc g f stack n) ∧
     (∀ f stack n, ¬ OnCycle g n → StackOK g stack n → FuelOK g f stack n → rawAt hc g f stack n = rawId hc g n) :=
-  ⟨escAt_onCycle hc g c hinv, computeAt_eq_rawAt hc g c hinv,
+  ⟨escAt_onCycle hc g hdc c hinv, computeAt_eq_rawAt hc g c hinv,
    fun f stack n hn hs hf => rawAt_of_not_onCycle hc g f stack n hn hs hf⟩
 
 /-! ### non-vacuity -/
@@ -111,12 +125,60 @@ example : OnCycle exCyc 0 := exCyc_onCycle
 example : (runOps exHC true { g := exCyc, c := Caches.empty }
       [.reqRaw 1, .reqRaw 0, .sealOp 1, .reqRaw 0, .reqRaw 1, .reqFull 1, .reqRaw 2, .reqFull 1]).2
     = [.reqRaw 1, .reqRaw 0, .sealOp 1, .reqRaw 0, .reqRaw 1, .reqFull 1, .reqRaw 2, .reqFull 1].map (specOut exHC exCyc) :=
-  cache_coherent exHC exHC_order exCyc _ (by decide)
+  cache_coherent exHC exHC_order exCyc (DefaultsClosed.of_noDefaultRefsB (by decide)) _ (by decide)
 
 /-- the answers are not degenerate: the three members of the cycle and the leaf have distinct identifiers,
     and the full identifier of node 1 (pre-task, init-task) differs from its raw identifier. -/
 example : (rawId exHC exCyc 0 ≠ rawId exHC exCyc 1 ∧ rawId exHC exCyc 1 ≠ rawId exHC exCyc 2
     ∧ rawId exHC exCyc 2 ≠ rawId exHC exCyc 3 ∧ fullId exHC exCyc 1 ≠ rawId exHC exCyc 1) := by decide
+
+/-! #### configuration-valued defaults
+
+    `class B(Config): k: Param[int]`, `class C(Config): other: Param[C]; x: Param[B] = B(k=1)`.  Nodes 0 ⇄ 1 form a
+    cycle; node 2 is the default object of `C.x`; node 0 holds a clone of it (node 3: the parameter is skipped),
+    node 1 another value (node 4: the parameter is included).  Node 0 is sealed at the start. -/
+def exDfl : Graph :=
+  { nodes := [
+      { typeId := [67], args := [{ name := [111], value := .ref 1 },
+          { name := [120], required := false, default := some (.ref 2), value := .ref 3 }], sealed := true },
+      { typeId := [67], args := [{ name := [111], value := .ref 0 },
+          { name := [120], required := false, default := some (.ref 2), value := .ref 4 }] },
+      { typeId := [66], args := [{ name := [107], value := .int 1 }] },
+      { typeId := [66], args := [{ name := [107], value := .int 1 }] },
+      { typeId := [66], args := [{ name := [107], value := .int 9 }] }] }
+
+/-- the default object is well formed (rank 1 on the default object, 0 elsewhere) and does occur. -/
+theorem exDfl_closed : DefaultsClosed exDfl :=
+  DefaultsClosed.of_rank (rank := fun n => if n = 2 then 1 else 0) (DefaultsRanked.of_B (by decide))
+
+/-- the same by the exact Boolean check (no rank needed). -/
+example : DefaultsClosed exDfl := DefaultsClosed.of_B (by decide)
+
+/-- the hypothesis excludes something: a default object that refers back to the configuration whose parameter
+    it is the default of (node 0 has default object 1 for `x`, and node 1's parameter `o` is node 0). -/
+example : ¬ DefaultsClosed { nodes := [
+      { typeId := [67], args := [{ name := [120], required := false, default := some (.ref 1), value := .ref 2 }] },
+      { typeId := [66], args := [{ name := [111], value := .ref 0 }] },
+      { typeId := [66], args := [{ name := [111], value := .none }] }] } := by
+  intro h
+  exact h 0 1 (by decide) (by decide) (Or.inr ⟨[], .single (by unfold Edge; decide)⟩)
+
+example : defaultRefs exDfl.mt (exDfl.node 0) = [2] ∧ OnCycle exDfl 0 :=
+  ⟨by decide, ⟨[1], .cons (by unfold Edge; decide) (.single (by unfold Edge; decide))⟩⟩
+
+/-- the general theorem on a history that seals and requests the members of the cycle in several orders … -/
+example : (runOps exHC true { g := exDfl, c := Caches.empty }
+      [.reqRaw 1, .reqRaw 0, .sealOp 1, .reqRaw 0, .reqRaw 1, .reqFull 1, .reqRaw 2, .reqRaw 3, .reqFull 0]).2
+    = [.reqRaw 1, .reqRaw 0, .sealOp 1, .reqRaw 0, .reqRaw 1, .reqFull 1, .reqRaw 2, .reqRaw 3, .reqFull 0].map (specOut exHC exDfl) :=
+  cache_coherent exHC exHC_order exDfl exDfl_closed _ (by decide)
+
+/-- … and the default rule is really exercised: node 0 skips `x` (its value has the identifier of the default),
+    node 1 does not, and the default object and its clone share their identifier. -/
+example : rawId exHC exDfl 2 = rawId exHC exDfl 3 ∧ rawId exHC exDfl 2 ≠ rawId exHC exDfl 4
+    ∧ rawId exHC exDfl 0 ≠ rawId exHC exDfl 1
+    ∧ included (ceqAt exHC exDfl 5 [0]) exDfl.mt { name := [120], required := false, default := some (.ref 2), value := .ref 3 } = false
+    ∧ included (ceqAt exHC exDfl 5 [1]) exDfl.mt { name := [120], required := false, default := some (.ref 2), value := .ref 4 } = true := by
+  decide
 
 /-- `flagStored = true` is necessary: on the same graph the history *seal, request 0, request 1* answers
     the specification with the flag stored and something else without it (finding F1). -/
